@@ -158,6 +158,11 @@ def run_histories(jobs):
                     elif a == "unregister_id":
                         out, _ = outcome(lambda: d.unregister(real_id(i)))
                         tr.append(dict(ev, out=out.split(":")[0], daemon_kept=kept()))
+                    elif a == "unregister_obj" and o == 5:
+                        inst = objs[3]()        # an instance of the (possibly registered) class: not itself a registered object
+                        out, _ = outcome(lambda: d.unregister(inst))
+                        del inst
+                        tr.append(dict(ev, out=out.split(":")[0], daemon_kept=kept()))
                     elif a == "unregister_obj":
                         out, _ = outcome(lambda: d.unregister(objs[o] if o else daemon_obj))
                         tr.append(dict(ev, out=out.split(":")[0], daemon_kept=kept()))
@@ -240,11 +245,15 @@ def run(ctx):
     s3 = tlc.gen(ctx, "Gen_Registry", cfg_text=GEN_CFG % 3)
     walks = tlc.gen(ctx, "Gen_Registry", cfg_text=GEN_CFG % ctx.pick(8, 10), workers=1,
                     extra=("-simulate", "num=%d" % ctx.pick(700, 8000), "-depth", str(ctx.pick(10, 12)), "-seed", str(ctx.seed + 16)))
+    focus = tlc.gen(ctx, "Gen_Registry", cfg_text="INIT GInit\nNEXT FNext\nCONSTANTS MaxLen = 5\nCHECK_DEADLOCK FALSE\n")
+    if len(focus) < 100:
+        raise util.MachineryError("focused histories incomplete")
     if len(s3) < 20000 or len(walks) < 500:
         raise util.MachineryError("history generation incomplete")
     rng = random.Random(ctx.seed + 16)
     rng.shuffle(s3)
-    hs = s3[:ctx.pick(600, 8000)] + walks
+    rng.shuffle(focus)
+    hs = s3[:ctx.pick(600, 8000)] + walks + focus[:ctx.pick(250, 100000)]
     sers = ["serpent", "json", "msgpack", "marshal"]
     jobs = [(h, sers[i % 4] if i % 8 != 7 else "serpent") for i, h in enumerate(hs)]
     traces = run_histories(jobs)
